@@ -129,3 +129,19 @@ Proof.
   exact (W3_no_overlap' o g g' x CI OK (NSBridge.ns_premise_holds o g CI) SZ SP H).
 Qed.
 Print Assumptions C04_component_end_to_end_all_positioners.
+
+(* the whole Layout with all four size-aware positioners (Proofs/NSPWhole.v) *)
+From Autog Require Import NSPWhole.
+Theorem C04_layout_components_apart_all_positioners : forall (A : Type) (eqA : A -> A -> bool), (forall x y, eqA x y = true <-> x = y) ->
+  forall o fixed sizes es ids ns oes xs, options_ok' o ->
+  Pipeline.layout A eqA o fixed sizes es = Ok (ids, (ns, oes, xs)) ->
+  spacing_nonneg o -> sizes_cfg_nonneg A eqA fixed sizes ids -> o_virtual o = false ->
+  (forall a, In a ns -> (0 <= on_x a)%Q) /\
+  (forall g, Populate.populate A eqA es = Ok (ids, g) ->
+     let cs := Populate.components (apply_sizes A eqA fixed sizes ids g) in
+     (forall a, In a ns -> exists i, (i < length cs)%nat /\ In (on_id a) (g_N (nth i cs Shift.graph0))) /\
+     (forall i j a b, (i < j)%nat -> (j < length cs)%nat -> In a ns -> In b ns ->
+        In (on_id a) (g_N (nth i cs Shift.graph0)) -> In (on_id b) (g_N (nth j cs Shift.graph0)) ->
+        (on_x a + on_w a + o_node_spacing o <= on_x b)%Q)).
+Proof. exact G8_layout_separated'. Qed.
+Print Assumptions C04_layout_components_apart_all_positioners.
